@@ -158,7 +158,7 @@ class Rule(whitespace.Rule):
     def _fix_violation(self, oViolation):
         lTokens = oViolation.get_tokens()
         dAction = oViolation.get_action()
-        if self.number_of_spaces == 0:
+        if dAction["spaces"] == 0:
             lTokens = [lTokens[0], lTokens[2]]
         else:
             if isinstance(lTokens[1], parser.whitespace):
